@@ -86,7 +86,7 @@ func checkC07(w *World, r *Report) {
 	c07Loader(w, r, "C07.a", "a-no-record-lost")
 	c07PointInTime(w, r)
 	c07Terminator(w, r, "C07.c", "c-index-travels")
-	c07UserPairs(w, r)
+	c07UserPairs(w, r, "C07.d", "d-only-and-all-user-pairs")
 	c07Switch(w, r, "C07.e", "e-switch-after-load")
 	c07Checksum(w, r)
 }
@@ -476,8 +476,8 @@ func c07Terminator(w *World, r *Report, id, slug string) {
 	ob.NeedFloor(4)
 }
 
-func c07UserPairs(w *World, r *Report) {
-	ob := r.Ob("C07.d", "d-only-and-all-user-pairs", "in the dump the iterator is opened with nil options; the record write is reachable only over the edge key.KeyType == user type, and from that edge the loop head is not reachable without the write", "exporting bookkeeping keys corrupts the target's indices; skipping a user pair loses data")
+func c07UserPairs(w *World, r *Report, id, slug string) {
+	ob := r.Ob(id, slug, "in the dump the iterator is opened with nil options; the record write is reachable only over the edge key.KeyType == user type, and from that edge the loop head is not reachable without the write", "exporting bookkeeping keys corrupts the target's indices; skipping a user pair loses data")
 	dump := w.Func(fsmRel, "commandSnapshot")
 	if dump == nil {
 		ob.Undecided("anchor", "dump function not found")
